@@ -23,7 +23,12 @@ func (k msgServer) Cancel(goCtx context.Context, msg *types.MsgCancel) (*types.M
 	isCreator := false
 	if order.Creator == msg.Creator {
 		isCreator = true
-	} else {
+	} else if msg.Provider == order.Provider {
+		// the gateway the order was created through may cancel it on behalf of
+		// its own addresses, never a node the canceller merely declares
+		if order.Creator == order.Provider {
+			isCreator = true
+		}
 		node, found := k.node.GetNode(ctx, msg.Provider)
 		if found {
 			for _, address := range node.TxAddresses {
